@@ -34,8 +34,10 @@ func Range(start, end, step int) SortedInts {
 	}
 
 	if end < start {
-		start, end = end, start
+		//The elements are start, start+step, ... while they are greater than end. Find the smallest one and count upwards from it.
 		step = -step
+		k := (start - end - 1) / step
+		start, end = start-k*step, start+1
 	}
 
 	tmp := make([]int, 0, (end-start+step-1)/step)
